@@ -1090,8 +1090,27 @@ class Interp:
             cache[key] = self.ev(expr, Frame(f.module, f.closure, cls=f.cls))
         return cache[key]
 
+    def summary(self, f, args, kw):
+        """call summaries: pure functions proven elsewhere are not inlined on symbolic input"""
+        q = f.qual
+        if q in ('crypto.crc.crc32c', 'crypto.crc.crc16') and args and not (isinstance(args[0], K)):
+            if q.endswith('crc16'):
+                return Term('crc', K('crc16'), args[0], K(2))
+            order = args[1] if len(args) > 1 else kw.get('byteorder')
+            if order is None:
+                d = f.node.args.defaults
+                order = self.ev(d[-1], Frame(f.module)) if d else K('little')
+            return Term('crc', K('crc32c'), args[0], order, K(4))
+        hook = getattr(self, 'summary_hook', None)
+        if hook is not None:
+            return hook(f, args, kw)
+        return None
+
     def invoke(self, f, args, kw):
         node = f.node
+        r = self.summary(f, args, kw)
+        if r is not None:
+            return r
         self.depth += 1
         if self.depth > self.MAX_DEPTH:
             self.depth -= 1
